@@ -1413,7 +1413,8 @@ class Engine(Executor):
                             for n in new_names:
                                 v = s2.env.get(n)
                                 for tn in list(new_types[n]):
-                                    if not (isinstance(v, Z) and (v.hint == tn or self.solver.check(s2.pc + [z3.Not(new_types[n][tn](v.t))])[0] == "unsat")):
+                                    # (a heuristic for the variable's type after the loop: a short budget, unknown = not stable)
+                                    if not (isinstance(v, Z) and (v.hint == tn or self.solver.check(s2.pc + [z3.Not(new_types[n][tn](v.t))], timeout_ms=1000)[0] == "unsat")):
                                         del new_types[n][tn]
                             # K4 (preserve) + candidate type-stability
                             for (n, mk) in cands:
